@@ -48,6 +48,9 @@ func sliceSignature(fn *ssa.Function, elem func(types.Type) bool) sliceSig {
 			if !ok || !elem(sl.Elem()) {
 				return
 			}
+			if sliceOnlyRead(x) {
+				return // a window that is only iterated over (for _, c := range cases[internal:]) rearranges nothing
+			}
 			if x.Low != nil && x.High == nil {
 				sg.lowOnly++
 			}
@@ -57,6 +60,38 @@ func sliceSignature(fn *ssa.Function, elem func(types.Type) bool) sliceSig {
 		}
 	})
 	return sg
+}
+
+// sliceOnlyRead: the reslice is only measured and read element-wise (ranged over), never kept,
+// appended to or copied.
+func sliceOnlyRead(x *ssa.Slice) bool {
+	if x.Referrers() == nil {
+		return true
+	}
+	for _, ref := range *x.Referrers() {
+		switch r := ref.(type) {
+		case *ssa.DebugRef:
+		case *ssa.Call:
+			b, ok := r.Common().Value.(*ssa.Builtin)
+			if !ok || (b.Name() != "len" && b.Name() != "cap") {
+				return false
+			}
+		case *ssa.IndexAddr:
+			if r.Referrers() != nil {
+				for _, r2 := range *r.Referrers() {
+					if ld, ok := r2.(*ssa.UnOp); !ok || ld.Op != token.MUL {
+						if _, isDbg := r2.(*ssa.DebugRef); !isDbg {
+							return false
+						}
+					}
+				}
+			}
+		case *ssa.Index:
+		default:
+			return false
+		}
+	}
+	return true
 }
 
 func (c *Ctx) parallelSliceRule(rule string) {
@@ -251,6 +286,8 @@ func runC07(c *Ctx) {
 	// ---- R07.8
 	c.rule("R07.8", "the caller's channel is closed only when the subscription context is done or when the buffer is empty")
 	c.closeWhenDrained("R07.8")
+	c.rule("R07.10", "a stream's sink leaves the table only together with its close (a removal keyed by something else — an outgoing channel id — silently cuts off an unrelated incoming stream)")
+	c.removalClosesRule("R07.10")
 	c.rule("R07.9", "every streamed value is decoded into memory allocated for that value (no recycled targets shared between values or subscriptions)")
 	c.freshStreamValue("R07.9")
 }
